@@ -50,6 +50,7 @@ fn main() {
         "reorder" => by_kind!(kind, reorder, &args),
         "replay" => by_kind!(kind, replay, &args),
         "bggc" => by_kind!(kind, bggc, &args),
+        "gcchurn" => by_kind!(kind, gcchurn, &args),
         #[cfg(feature = "idx")]
         "tdd" => drv_mv::tdd(&args),
         #[cfg(feature = "idx")]
@@ -76,6 +77,12 @@ fn main() {
             "bdd" => drv_oom::oom::<BDDFunction>(&args),
             "bcdd" => drv_oom::oom::<BCDDFunction>(&args),
             "zbdd" => drv_oom::oom::<ZBDDFunction>(&args),
+            k => panic!("harness: unknown kind {k}"),
+        },
+        "oomabort" => match kind.as_str() {
+            "bdd" => drv_oom::oomabort::<BDDFunction>(&args),
+            "bcdd" => drv_oom::oomabort::<BCDDFunction>(&args),
+            "zbdd" => drv_oom::oomabort::<ZBDDFunction>(&args),
             k => panic!("harness: unknown kind {k}"),
         },
         "names" => match kind.as_str() {
